@@ -313,3 +313,76 @@ def net_blank_rule(rep, u, fname="str_net_to_ss"):
         else:
             rep.proved("R-SPELL", fn, inst, desc, "number text of %s byte(s)" % numlen)
     return n
+
+
+def _harmless_prefilter(fn, b, cnd, skipping, body):
+    """a skip that cannot lose a spelling: IPv6 text always holds ':', IPv4 text always holds '.' and never ':'.
+    (family constant compared in the same short-circuit chain, byte searched for, which answer skips)"""
+    srch = [y for y, _ in _walk(cnd) if y.get("k") == "call" and y.get("fn") in ("memchr", "strchr", "mem_chr", "mem_chr_ptr")]
+    if len(srch) != 1:
+        return False
+    byte = [const_val(a_) for a_ in srch[0].get("args", []) if const_val(a_) is not None and 0 < const_val(a_) < 256]
+    cmpn = [y for y, _ in _walk(cnd) if y.get("k") == "bin" and y["op"] in ("==", "!=") and any(srch[0] is z for z, _ in _walk(y))]
+    if not byte or len(cmpn) != 1:
+        return False
+    # which answer of the search skips: the true edge is succ[0]
+    found_when_true = cmpn[0]["op"] == "!="
+    skip_on_true = fn.blocks[b].succ[0] in skipping
+    skips_when_found = (found_when_true == skip_on_true)
+    fams = set()
+    for q in body:
+        cq = fn.blocks[q].cond
+        if cq is not None and (q == b or fn.dominates(q, b)):
+            for y, _ in _walk(cq):
+                if y.get("k") == "bin" and y["op"] == "==":
+                    for s_ in ("x", "y"):
+                        v = const_val(core.strip_casts(y[s_]))
+                        if v in (2, 10):
+                            fams.add(v)
+    if len(fams) != 1:
+        return False
+    fam = fams.pop()
+    return (fam, byte[0], skips_when_found) in ((10, ord(":"), False), (2, ord("."), False), (2, ord(":"), True))
+
+
+def family_offered_rule(rep, u, parser="inet_pton", setup="sa_init"):
+    """R-ORACLE family-offered: "accepts the documented spellings" is decided by the system's parser - the library's own part is
+    to offer the text to it for every family of its list.  In each function that calls inet_pton inside a loop over the
+    families, every branch between the loop's head and that call whose other edge skips the call (for this family) hangs on the
+    family set-up call alone: a test of the text itself there (a '.' or ':' search, a length class) withholds spellings that
+    the parser accepts - `::ffff:1.2.3.4` contains dots, `1::` contains no second group."""
+    n = 0
+    for fn in u.function_list:
+        if not fn.has_cfg or fn.relfile() != "src/net/socket_address.c":
+            continue
+        for pos, root, c, ps in fn.calls({parser}):
+            pb = pos[0]
+            # the loop head: the closest dominating block with a condition that the call's block can come back to
+            heads = [b for b in fn.reachable_blocks() if b != pb and fn.blocks[b].cond is not None and fn.dominates(b, pb)
+                     and b in fn.reach_from(list(fn.blocks[pb].succ))
+                     and any(fn.dominates(b, q) for q in fn.reachable_blocks() if b in fn.blocks[q].succ)]     # target of a back edge
+            if not heads:
+                continue
+            head = max(heads, key=lambda b: len(fn.dom()[b]))
+            n += 1
+            rep.functions.add(fn.name)
+            body = fn.reach_from([s for s in fn.blocks[head].succ if s is not None and pb in fn.reach_from([s], avoid=[head])], avoid=[head])
+            bad = None
+            for b in sorted(body):
+                cnd = fn.blocks[b].cond
+                if cnd is None or b == pb or pb not in fn.reach_from([b], avoid=[head]):
+                    continue
+                skipping = [s for s in fn.blocks[b].succ if s is not None and pb not in fn.reach_from([s], avoid=[head])]
+                if not skipping:
+                    continue
+                names = {y.get("fn") for y, _ in _walk(cnd) if y.get("k") == "call"}
+                if setup in names and not (names - {setup}):
+                    continue
+                if _harmless_prefilter(fn, b, cnd, skipping, body):
+                    continue
+                bad = bad or ("the branch at line %s (%s) can skip the %s() call for a family: the text is not offered to the system's parser, "
+                              "spellings it accepts for that family are refused" % (cnd.get("ln"), ", ".join(sorted(x for x in names if x)) or "no set-up call in the condition", parser))
+            desc = ("%s: between the head of the family loop and the %s() call only the family set-up (%s) can skip the call - the text "
+                    "itself is not pre-classified" % (fn.name, parser, setup))
+            (rep.violated if bad else rep.proved)("R-ORACLE", fn, "family-offered", desc, bad or "", c.get("ln"))
+    return n
